@@ -46,7 +46,210 @@ def build(pid, tier, log_dir):
         obs.append(mp.XOb("X-parse_slice", "", "", lambda: run_parse_slice(log_dir)))
     if pid == "C01":
         obs.append(mp.XOb("X-parse_operators", "", "", lambda: run_parse_levels(log_dir)))
+    if pid == "C11":
+        obs.append(mp.XOb("X-parser_cursor", "", "", lambda: run_cursor(log_dir)))
     return obs
+
+
+# ---- the token cursor (C11): one inductive step from an arbitrary valid state ---------------------------------------------------
+CURSOR_FNS = {
+    # name: precondition on (pos, current token is Eof) beyond the representation invariant
+    "peek": None, "peek_next": None, "is_at_end": None, "current_span": None, "check": None, "check_keyword": None, "check_punct": None,
+    "check_op": None, "advance": "consumed_or_not_eof", "match_token": "consumed_or_not_eof", "match_keyword": None, "match_punct": None,
+    "match_op": None, "expect": "consumed_or_not_eof", "expect_keyword": None, "expect_punct": None, "expect_op": None,
+    "skip_newlines": None, "skip_dedents": None, "synchronize": "consumed_or_not_eof",
+}
+
+
+def run_cursor(log_dir):
+    """Representation invariant of the parser's cursor: the buffer is non-empty, ends with Eof, and pos is inside it.
+    From EVERY state satisfying it (buffer of any length, any position, arbitrary tokens) each helper returns without an
+    out-of-bounds index or an arithmetic overflow and leaves the invariant intact."""
+    import mirx_props as mp
+    t0 = time.time()
+    P, R = load()
+    tkinds = mp.variants(R, "TokenKind")
+    EOF = tkinds.index("Eof")
+    pdef = R.resolve("Parser")
+    pnames = [x[0] for x in pdef.variants[0][1]]
+    tnames = [x[0] for x in R.resolve("Token").variants[0][1]]
+    results, encoded, paths, n_ret = [], [], 0, 0
+    per_fn = {}
+    worst = None
+    for name, pre in CURSOR_FNS.items():
+        try:
+            f = parser_fn(P, name)
+        except Inconclusive:
+            continue
+        ex = mirx.make_executor(P, R, max_paths=200000)
+        ex.opaque_calls = mirx.slice_opaque
+        ex.recursion_bound = 3
+        ex.loop_bound = 3             # loops of skip_newlines / synchronize: 3 iterations, then the path is cut (stated)
+        ex.tolerate_unsupported = True
+        ex.summarize = [r"ToString>::to_string$", r"CompileError::\w+$", r"fmt::format", r"^format$", r"fmt::rt::Argument", r"Arguments::<.*>::new",
+                        r"must_use", r"PartialEq>::eq$", r"mem::discriminant"]
+        e = ex.enc
+        tokens = ex.sym_value("&[Token]", "tokens")
+        pos = e.int_var("pos")
+        length = e.int_var("buflen")
+        ex.slice_lens = {("len", tokens.name): length}
+        e.side += [f"(>= {pos.term} 0)", f"(>= {length.term} 1)", f"(< {pos.term} {length.term})", f"(<= {length.term} {e.int_const((1 << 62))})"]
+
+        def elem_axiom(seq, idx_term, elem, ex=ex, e=e, length=length):
+            kind = elem.child(None, tnames.index("kind"))
+            e.side.append(f"(=> (= {idx_term} (- {length.term} 1)) (= {kind.tag().term} {EOF}))")
+        ex.elem_axiom = elem_axiom
+        fields = []
+        for fn_ in pnames:
+            fields.append((fn_, tokens if fn_ == "tokens" else pos if fn_ == "pos" else symex.Opaque(fn_)))
+        st0 = symex.State()
+        st0.store[0] = {"_self": Adt("Parser", None, fields)}
+        selfref = symex.Ref(0, mir.Place("_self", ()))
+        args = [selfref] + [ex.sym_value(t, f"p{k}") for k, (_, t) in enumerate(f.params[1:])]
+        cur = mirx.seq_elem_at(ex, tokens, pos.term)
+        cur_kind = cur.child(None, tnames.index("kind"))
+        pre_f = "true"
+        if pre == "consumed_or_not_eof":
+            pre_f = f"(or (>= {pos.term} 1) (not (= {cur_kind.tag().term} {EOF})))"
+        ex.call_stack = [f.name]
+        try:
+            outs = ex._run(f, args, {}, 0, st0)
+        finally:
+            ex.call_stack = []
+        encoded += ex.encoded
+        paths += len(outs)
+        lbad = []
+        for o in outs:
+            if o.kind == "unsupported":
+                lbad.append((conj(o.pc + [pre_f]), f"{name}: unsupported MIR: {o.info}"))
+                continue
+            if o.kind != "return":
+                lbad.append((conj(o.pc + [pre_f]), f"{name}: {o.info}"))
+                continue
+            n_ret += 1
+            per_fn[name] = per_fn.get(name, 0) + 1
+            final = o.state.store.get(0, {}).get("_self")
+            fpos = None
+            if isinstance(final, Adt):
+                for fl in final.fields:
+                    if isinstance(fl, tuple) and fl[0] == "pos":
+                        fpos = ex.deref(fl[1], o.state)
+            if fpos is None or not isinstance(fpos, symex.Scalar):
+                lbad.append((conj(o.pc + [pre_f]), f"{name}: the cursor position after the call is not an integer value"))
+                continue
+            inv_after = f"(and (>= {fpos.term} {pos.term}) (< {fpos.term} {length.term}))"
+            lbad.append((conj(o.pc + [pre_f, neg(inv_after)]), f"{name}: the cursor leaves the buffer or moves backwards (pos' = {fpos.term})"))
+        results.append((name, ex, lbad, pre_f, outs))
+    r = {"id": "X-parser_cursor", "engine": "E2-X mirsmt",
+         "statement": "token cursor: from every parser state with a non-empty buffer that ends in Eof and pos inside it, each cursor helper returns "
+                      "without an out-of-bounds index or arithmetic overflow, never moves the cursor backwards and leaves pos inside the buffer "
+                      "(one inductive step: histories of any length follow by induction)",
+         "bound": f"Parser::{', '.join(per_fn)}: buffers of ANY length up to 2^62 tokens, any position, arbitrary token kinds; precondition of "
+                  "advance / match_token / expect / synchronize (from their call sites): a token has been consumed already or the current "
+                  "token is not Eof; loops of skip_newlines / skip_dedents / synchronize explored for 3 iterations; which call sites establish "
+                  "the precondition is NOT part of this obligation",
+         "encoding": "buffer length and position as integers, tokens as symbolic ADTs (the one at index len-1 is Eof), bounds checks and "
+                     "overflow checks of the MIR as assertions", "functions_encoded": sorted(set(n + " (MIR)" for n in encoded)), "paths": paths,
+         "compositions": per_fn}
+    if n_ret == 0 or len(per_fn) < 12:
+        r.update(status="inconclusive", reason=f"only {sorted(per_fn)} could be executed", wall_s=round(time.time() - t0, 2))
+        return r
+    # vacuity: the invariant + precondition is satisfiable and some path returns
+    queries = 0
+    for name, ex, lbad, pre_f, outs in results:
+        vac = solver.check(mp.smt_lines(ex, [pre_f, disj([conj(o.pc) for o in outs if o.kind == "return"])]), [], "z3", 60)
+        queries += 1
+        if vac.status != "sat":
+            r.update(status="inconclusive", reason=f"{name}: vacuity twin is {vac.status}", wall_s=round(time.time() - t0, 2))
+            return r
+        live = [(b, w) for b, w in lbad if b != "false"]
+        if not live:
+            continue
+        # one query for the disjunction of all deviations of this helper; only a sat answer is taken apart
+        allq = disj([b for b, _ in live])
+        res = solver.check(mp.smt_lines(ex, [allq]), [], "z3", 120)
+        queries += 1
+        if res.status == "unsat":
+            res2 = solver.check(mp.smt_lines(ex, [allq]), [], "cvc5", 120)
+            queries += 1
+            if res2.status != "sat":
+                continue
+        elif res.status != "sat":
+            r.update(status="inconclusive", reason=f"{name}: solver says {res.status}", wall_s=round(time.time() - t0, 2))
+            return r
+        for b, w in live:
+            res = solver.check(mp.smt_lines(ex, [b]), mp.tag_names(ex) + ["pos", "buflen"], "z3", 60)
+            queries += 1
+            if res.status == "unsat":
+                res2 = solver.check(mp.smt_lines(ex, [b]), mp.tag_names(ex) + ["pos", "buflen"], "cvc5", 60)
+                queries += 1
+                if res2.status == "sat":
+                    res = res2
+                else:
+                    continue
+            if res.status != "sat":
+                r.update(status="inconclusive", reason=f"{w}: solver says {res.status}", wall_s=round(time.time() - t0, 2))
+                return r
+            worst = (name, w, res.model)
+            break
+        if worst:
+            break
+    r["vacuity_ok"] = True
+    r["queries"] = queries
+    r["wall_s"] = round(time.time() - t0, 2)
+    if worst is None:
+        r.update(status="held", solver=f"{queries} queries over {paths} paths (z3, cvc5 cross-check, one disjunctive query per helper): no state satisfying the invariant makes a helper panic or break it")
+        return r
+    return native_cursor(r, worst, log_dir)
+
+
+CURSOR_INPUTS = ["", "\n", "def", "def f(", "x = ", "x = (1 +", "@", "class A:\n  def", "if x:\n    y\n  z", "f\"{\"", "x[1:", "import", "from a import",
+                 "match x:\n  case", "def f(a, b=", "x = [1, 2", "x = {1:", "x.", "x.0.", "lambda", "not", "-", "a if b else", "async def", ")", "]", "}", ":", "x = 1 +\n",
+                 "model M:\n  x:", "enum E:\n  A(", "trait T:\n  def f(self", "type X =", "const C: int =", "for i in", "while", "return", "pass\n\n\n", "\t", "  x"]
+
+
+def native_cursor(r, worst, log_dir):
+    """Replay: a battery of truncated programs (each ends where a helper must look at / step over the end of the buffer) through the
+    real lexer + parser; a panic reproduces the violation."""
+    import kani
+    name, why, model = worst
+    os.makedirs(log_dir, exist_ok=True)
+    texts, broken = [], False
+    for prof in ("dev", "release"):
+        binp = kani.build_replay(prof, True, log_dir)
+        for k, src in enumerate(CURSOR_INPUTS):
+            path = os.path.join(log_dir, f"cursor_replay_{k}.incn")
+            with open(path, "w") as fh:
+                fh.write(src)
+            rc, out, _, to = common.run([binp, "astdump", path], timeout=60)
+            if to or rc not in (0, 1) or "panicked" in out:
+                broken = True
+                texts.append(f"[{prof}] parsing {src!r} panics / aborts: {out.strip()[-200:]}")
+                break
+    text = "; ".join(texts) or f"{len(CURSOR_INPUTS)} truncated programs parse (or are rejected) without a panic"
+    r["native"] = text
+    pos_v = model.get("pos") if isinstance(model, dict) else None
+    len_v = model.get("buflen") if isinstance(model, dict) else None
+    cex = {"helper": name, "state": f"pos={pos_v}, buffer length={len_v}", "path": why[:300], "native": text}
+    if broken:
+        os.makedirs(os.path.join(common.REPLAYS_DIR, "MIRX"), exist_ok=True)
+        rp = os.path.join(common.REPLAYS_DIR, "MIRX", r["id"] + ".replay")
+        with open(rp, "w") as fh:
+            fh.write(f"mirx cursor\n# {r['statement']}\n# solver: {why[:300]} at pos={pos_v} len={len_v}\n# native: {text}\n")
+        r.update(status="violated", replay=rp, counterexample=cex)
+    else:
+        r.update(status="inconclusive", reason=f"a state satisfying the invariant breaks it ({why[:200]}; pos={pos_v}, len={len_v}) but no truncated "
+                 f"program of the replay battery makes the parser panic", counterexample=cex)
+    return r
+
+
+def replay_cursor(pid, line, path):
+    r = native_cursor({"id": "replay", "statement": ""}, ("replay", "", {}), os.path.join(common.WORK_DIR, pid, "replay"))
+    say(r.get("native", ""))
+    if r.get("status") == "violated":
+        say(f"VIOLATION property={pid} replay={path}")
+        return 1
+    return 0
 
 
 def executor(P, R, budget):
@@ -240,6 +443,14 @@ def run_parse_slice(log_dir):
         want = {"start": (start.name + ".Some.0") if start_present else None, "end": end, "step": step}
         if len(samples) < 4:
             samples.append({"trace": [f"{q}({t_})={r_}" for q, t_, r_ in tr], "slice": got})
+        if fs is None and got.get("start") != start.name:
+            # the path never looks at whether a start expression was written, and does not pass it through either: with a start
+            # written (tag = Some) the result loses it
+            bad.append(conj(o.pc + [f"(= {start.tag().term} 1)"]))
+            why.append(f"trace {tr}: the written start bound is dropped (parser builds {got})")
+            continue
+        if fs is None:
+            want["start"] = start.name
         if got != want:
             bad.append(conj(o.pc))
             why.append(f"trace {tr} should give {want}, parser builds {got}")
@@ -468,7 +679,7 @@ NATIVE = {
     "slice": [("x[a:b:c]", "(Slice x a b c)"), ("x[a:b]", "(Slice x a b None)"), ("x[a:]", "(Slice x a None None)"),
               ("x[:b]", "(Slice x None b None)"), ("x[:]", "(Slice x None None None)"), ("x[::c]", "(Slice x None None c)"),
               ("x[a::c]", "(Slice x a None c)"), ("x[:b:c]", "(Slice x None b c)"), ("x[a::]", "(Slice x a None None)"),
-              ("x[a:b:]", "(Slice x a b None)")],
+              ("x[a:b:]", "(Slice x a b None)"), ("x[::]", "(Slice x None None None)"), ("x[a: :c]", "(Slice x a None c)")],
     "operators": [("a - b - c", "(Sub (Sub a b) c)"), ("a + b - c", "(Sub (Add a b) c)"), ("a * b / c", "(Div (Mul a b) c)"),
                   ("a // b % c", "(Mod (FloorDiv a b) c)"), ("a % b // c", "(FloorDiv (Mod a b) c)"), ("a ** b ** c", "(Pow a (Pow b c))"),
                   ("a + b * c", "(Add a (Mul b c))"), ("a * b + c", "(Add (Mul a b) c)"), ("a * b ** c", "(Mul a (Pow b c))"),
